@@ -21,7 +21,7 @@ def correspondence(ctx):
                 "Non-trivial = distinct recipe with >= 2 live required sets that overlap each other or the allowed set, or length >= 64.")
     rng = ctx.rng
     cases = []
-    recs = list(WITNESSES)
+    recs = list(WITNESSES) + chargen.machine_boundary_recipes()
     # the simple path (nothing required) at lengths whose counts leave the float64 range (a^L >= 2^1024) and far beyond
     big = (170, 171, 172, 200, 342, 1000, 3000, 12000) if ctx.tier == "thorough" else (171, 172, 1000)
     alphas = (dict(allow=15, exclude=16), dict(allow=4), dict(allow_chars="ab"), dict(allow=3, allow_chars="é€"), dict(allow=8, exclude_chars="!"))
